@@ -65,12 +65,18 @@ def op_lines(db):
         cols = ",".join(hl.unq(c) for c in t["cols"] if " " not in c)
         root = ix["root"]
         out += [("%s/iscan" % name, "iscan %d 0" % root), ("%s/imin" % name, "imin %d 0 t6d/b/a" % root), ("%s/ieq" % name, "ieq %d 0 i5/b/a" % root),
+                ("%s/iminlast" % name, "imin %d 0 bffff/b/a" % root), ("%s/iminfirst" % name, "imin %d 0 n/b/a" % root), ("%s/ieqlast" % name, "ieq %d 0 bffff/b/a" % root),
                 ("%s/irange" % name, "irange %d 0 i1/b/a t7a/b/a" % root),
                 ("%s/iselect" % name, "iselect %s %s %s" % (ix["table"], name, cols)), ("%s/iselecteq" % name, "iselecteq %s %s i5 %s" % (ix["table"], name, cols)),
                 ("%s/iselecteq0" % name, "iselecteq %s %s - %s" % (ix["table"], name, cols))]
     return out
 
 LOW = ("master", "scan ", "iscan ", "imin ", "ieq ", "irange ", "rowid ")
+
+
+def hash_even(cid):
+    import zlib
+    return zlib.crc32(cid.encode()) % 3 == 0
 
 
 def run_batch(tag, cases, want_model):
@@ -81,7 +87,11 @@ def run_batch(tag, cases, want_model):
         for opid, cmd in opl:
             lines.append(("%s|%s" % (cid, opid), cmd))
             lines.append(("%s|%s|t" % (cid, opid), "clock"))
-    res, impl, model = ops.run_cmds(tag, lines, timeout=600, sides=("impl", "model") if want_model else ("impl",))
+    res, impl, _ = ops.run_cmds(tag, lines, timeout=600, sides=("impl",))
+    # the model runs the low level operations of a subset of the files (want_model(cid))
+    mlines = [(c, l) for c, l in lines if want_model(c.split("|")[0]) and (l.startswith("db ") or l.startswith(LOW))]
+    res2, _, model = ops.run_cmds(tag + "-m", mlines, timeout=900, sides=("model",))
+    res["model"] = res2["model"]
     return res, impl, model, lines
 
 
@@ -125,12 +135,24 @@ def check(run):
             dist["mutants"] += 1
             k = what.split(" ")[-2] + " " + what.split(" ")[-1] if what.startswith("page") else what.split(" ")[0]
             dist["kinds"][k] = dist["kinds"].get(k, 0) + 1
+    # 2b. directed pointer corruptions of every interior page
+    dist["directed"] = 0
+    for bi, db in enumerate(bases):
+        opl = op_lines(db)
+        for m, (data, what) in enumerate(mutate.directed_pointers(db.data, db.page_size)):
+            if quick and "all pointers" not in what and "right-most" not in what:
+                continue
+            path = os.path.join(wd, "m-d%d-%d.db" % (bi, m))
+            open(path, "wb").write(data)
+            cases.append(("d/%d/%d" % (bi, m), path, opl, "%s: %s" % (db.desc, what)))
+            dist["directed"] += 1
     # run in batches so that a crash or a hang costs one batch; low level operations also through the model
     desc = {c[0]: c for c in cases}
     B = 40
     for s in range(0, len(cases), B):
         batch = cases[s:s + B]
-        res, impl, model, lines = run_batch("c05-%d" % (s // B), [(c, p, o) for c, p, o, _ in batch], True)
+        res, impl, model, lines = run_batch("c05-%d" % (s // B), [(c, p, o) for c, p, o, _ in batch],
+                                            (lambda cid: True) if not quick else (lambda cid: not cid.startswith(("m/", "d/")) or hash_even(cid)))
         irc, iout, ierr = res["impl"]
         if irc != 0:
             last = [l for l in iout.split("\n") if l.startswith("# ")]
@@ -171,7 +193,7 @@ def check(run):
                                   {"kind": "panic-or-slow", "db": keep, "command": cmd, "what": what, "impl": out[-3:], "ms": ms})
                 anyerr = anyerr or any(l.startswith(("end err", "err ")) for l in out)
                 # low level operations: the model must neither panic nor diverge, and must agree on rows and ok/err
-                if cmd.startswith(LOW) and op[0].startswith("open ok"):
+                if cmd.startswith(LOW) and op[0].startswith("open ok") and key in model:
                     m = model.get(key)
                     norm = lambda ls: None if ls is None else [("end err" if l.startswith("end err") else "err" if l.startswith("err ") else l) for l in ls]
                     if m is not None and any("PANIC" in l or "DIVERGE" in l for l in m) and not bad:
